@@ -19,6 +19,12 @@ def main():
     if r.returncode != 0:
         print("patch does not apply: " + r.stderr); return 2
     out = {}
+    # evidence files must describe the UNCHANGED tree: keep the current ones aside and put them back afterwards
+    import shutil, tempfile
+    keep = tempfile.mkdtemp(prefix="evidence_keep_")
+    evd = os.path.join(VERIF, "evidence")
+    if os.path.isdir(evd):
+        shutil.copytree(evd, os.path.join(keep, "evidence"))
     try:
         for p in props:
             t0 = time.time()
@@ -30,6 +36,12 @@ def main():
                 print(q.stdout[-800:], q.stderr[-800:])
     finally:
         subprocess.run(["git", "-C", REPO, "checkout", "--", "."], check=True)
+        if os.path.isdir(os.path.join(keep, "evidence")):
+            shutil.rmtree(evd, ignore_errors=True)
+            shutil.copytree(os.path.join(keep, "evidence"), evd)
+        shutil.rmtree(keep, ignore_errors=True)
+        # put the translated files back in step with the restored sources
+        subprocess.run([sys.executable, os.path.join(VERIF, "tools", "rust2lean.py")], capture_output=True)
     print(json.dumps({"patch": patch, "tier": tier, "caught_by": [p for p, v in out.items() if v["rc"] == 1], "results": out}))
     return 0
 if __name__ == "__main__":
